@@ -59,7 +59,7 @@ Section W.
   Proof. reflexivity. Qed.
 
   Definition clip_kid (c : option clipdef) (k : node) : list xout :=
-    match k with NPath pi fl st => [write_path o pi fl st (option_map c_id c)] | _ => [] end.
+    match k with NPath pi pvz fl st => [write_path o pi fl st (option_map c_id c)] | _ => [] end.
   Lemma write_group_clip i sy c m fs ks :
     write_group o (G i sy c m fs ks) true = flat_map (clip_kid c) ks.
   Proof.
@@ -99,7 +99,7 @@ Section W.
     Hypothesis Hc : forall g c, In (NGroup g) U -> In c (ochain clip_chain (g_clip g)) -> Good (p, c_id c).
     Hypothesis Hm : forall g c, In (NGroup g) U -> In c (ochain mask_chain (g_mask g)) -> Good (p, m_id c).
     Hypothesis Hf : forall g f, In (NGroup g) U -> In f (g_filters g) -> Good (p, f_id f).
-    Hypothesis Hp : forall i fl st d, In (NPath i fl st) U -> In d [fl; st] -> is_server d = true -> Good (p, pa_id d).
+    Hypothesis Hp : forall i vz fl st d, In (NPath i vz fl st) U -> In d [fl; st] -> is_server d = true -> Good (p, pa_id d).
     Hypothesis Hs : w_preserve_text o = true ->
       forall n d, In n U -> In d (span_paints_of n) -> Good (p, pa_id d).
     Hypothesis Htp : w_preserve_text o = true ->
@@ -148,10 +148,10 @@ Section W.
         + intros c E. apply (Hm g c Hn). rewrite E. simpl. apply mask_chain_head.
         + intros f Hin. apply (Hf g f Hn Hin).
       - (* NPath *)
-        intros i fl st _ _ Hn clip r Hr. change (In r (lrefs [write_path o i fl st None])) in Hr.
+        intros i vz fl st _ _ Hn clip r Hr. change (In r (lrefs [write_path o i fl st None])) in Hr.
         rewrite lrefs_single in Hr. apply write_path_refs in Hr. destruct Hr as [[Hsv ->]|[[Hsv ->]|(c & E & _)]]; [| |discriminate].
-        + apply (Hp i fl st fl Hn); simpl; auto.
-        + apply (Hp i fl st st Hn); simpl; auto.
+        + apply (Hp i vz fl st fl Hn); simpl; auto.
+        + apply (Hp i vz fl st st Hn); simpl; auto.
       - (* NImage *)
         intros i sub _ Hn clip r Hr. simpl in Hr. rewrite app_nil_r, flat_map_app, id_attr_refs in Hr. destruct Hr.
       - (* NText *)
@@ -171,10 +171,10 @@ Section W.
         intros i sy c m fs ks _ _ _ Hks Hkids Hown clip r Hr. destruct Hown as (O1 & O2 & O3). simpl g_kids in Hkids. simpl g_clip in O1. simpl g_mask in O2. simpl g_filters in O3.
         destruct clip.
         + rewrite write_group_clip in Hr. apply in_lrefs_flat_map in Hr. destruct Hr as (k & Hk & Hr).
-          destruct k as [|pi fl st| |]; unfold clip_kid in Hr; try (destruct Hr; fail). rewrite lrefs_single in Hr.
+          destruct k as [|pi pvz fl st| |]; unfold clip_kid in Hr; try (destruct Hr; fail). rewrite lrefs_single in Hr.
           apply write_path_refs in Hr. destruct Hr as [[Hsv ->]|[[Hsv ->]|(c0 & E & ->)]].
-          * apply (Hp pi fl st fl (Hkids _ Hk)); simpl; auto.
-          * apply (Hp pi fl st st (Hkids _ Hk)); simpl; auto.
+          * apply (Hp pi pvz fl st fl (Hkids _ Hk)); simpl; auto.
+          * apply (Hp pi pvz fl st st (Hkids _ Hk)); simpl; auto.
           * destruct c as [cd|]; simpl in E; [|discriminate]. inversion E; subst. apply O1. reflexivity.
         + rewrite write_group_noclip, lrefs_single, refs_of_eq in Hr. rewrite !flat_map_app, id_attr_refs, style_refs, app_nil_r in Hr.
           apply in_app_or in Hr. destruct Hr as [Hr|Hr].
@@ -210,7 +210,7 @@ Section W.
     match n with NText i flat _ => g_id flat = i | _ => True end.
   Lemma write_node_has_id n : node_id n <> 0 -> flat_id_ok n -> In (p, node_id n) (ldefs (write_node o n false)).
   Proof.
-    intros Hn Hfl. destruct n as [g|i fl st|i sub|i flat ch]; simpl in Hn.
+    intros Hn Hfl. destruct n as [g|i vz fl st|i sub|i flat ch]; simpl in Hn.
     - destruct g as [i sy c m fs ks]. rewrite write_node_group, write_group_noclip. simpl. rewrite !flat_map_app.
       rewrite (id_attr_defs i Hn). simpl. auto.
     - simpl. rewrite !flat_map_app, (id_attr_defs i Hn). simpl. auto.
@@ -300,7 +300,7 @@ Definition span_ok (t : tree) : Prop :=
 Lemma node_paints_incl sel n : (forall q, sel q = true -> is_server q = true) ->
   incl (node_paints sel n) (node_paints is_server n).
 Proof.
-  intros Hs d Hd. destruct n as [g|i fl st|i sub|i flat ch]; try exact Hd.
+  intros Hs d Hd. destruct n as [g|i vz fl st|i sub|i flat ch]; try exact Hd.
   change (In d (filter sel [fl; st])) in Hd. change (In d (filter is_server [fl; st])).
   apply filter_In in Hd. destruct Hd as [H1 H2]. apply filter_In. split; auto.
 Qed.
@@ -394,10 +394,10 @@ Section Top.
     destruct Hsound as (_ & _ & S1 & _). destruct Hcoh as (_ & _ & K1 & _).
     rewrite <- (K1 c' f (S1 c' Hin) Hr E). apply D_filter. exact Hin.
   Qed.
-  Lemma good_paint i fl st d : In (NPath i fl st) U -> In d [fl; st] -> is_server d = true -> In (p, pa_id d) D.
+  Lemma good_paint i vz fl st d : In (NPath i vz fl st) U -> In d [fl; st] -> is_server d = true -> In (p, pa_id d) D.
   Proof.
     intros Hn Hd Hsv. assert (Hr : In d (reach_paints root)).
-    { unfold reach_paints, reach_defs. apply in_flat_map. exists (NPath i fl st). split; auto.
+    { unfold reach_paints, reach_defs. apply in_flat_map. exists (NPath i vz fl st). split; auto.
       change (In d (filter is_server [fl; st])). apply filter_In. split; auto. }
     destruct Hcomplete as (_ & _ & _ & C1). destruct (C1 d Hr) as (L1 & L2 & L3).
     destruct Hsound as (_ & _ & _ & S1 & S2 & S3). destruct Hcoh as (_ & _ & _ & K1).
@@ -523,8 +523,8 @@ Section Top.
       simpl in Hr. destruct d as [| | | |q j r0]; try (simpl in Hr; destruct Hr; fail).
       apply (elements_good r0 false r); auto. intros k Hk.
       destruct Hsound as (_ & _ & _ & _ & _ & S3). specialize (S3 _ Hd). unfold reach_defs in S3.
-      apply in_flat_map in S3. destruct S3 as (n & Hn & Hin). destruct n as [|i fl st| |]; cbn [node_paints] in Hin; try (destruct Hin; fail).
-      apply (U_pattern_kid root i fl st q j r0 k Hn); auto.
+      apply in_flat_map in S3. destruct S3 as (n & Hn & Hin). destruct n as [|i vz fl st| |]; cbn [node_paints] in Hin; try (destruct Hin; fail).
+      apply (U_pattern_kid root i vz fl st q j r0 k Hn); auto.
       apply filter_In in Hin. destruct Hin as [[<-|[<-|[]]] _]; auto. }
     apply in_app_or in Hr. destruct Hr as [Hr|Hr].
     { rewrite text_paths_no_refs in Hr. destruct Hr. }
@@ -653,7 +653,7 @@ Section Prefix.
     (forall x : prim, True) /\ (forall x : paint, True).
   Proof.
     apply tree_mutind; auto.
-    - intros i fl st _ _ clip. change (allp (lmarks [write_path o i fl st None])). rewrite lmarks_single.
+    - intros i vz fl st _ _ clip. change (allp (lmarks [write_path o i fl st None])). rewrite lmarks_single.
       apply allp_path.
     - intros i sub _ clip. change (allp (lmarks [XE Timage (id_attr o i ++ [AHrefData]) []])). rewrite lmarks_single, marks_of_eq.
       simpl lmarks. rewrite app_nil_r, flat_map_app. apply allp_app; [apply allp_id|simpl; apply allp_nil].
@@ -665,7 +665,7 @@ Section Prefix.
     - intros i sy c m fs ks _ _ _ Hks clip. destruct clip.
       + rewrite write_group_clip. unfold lmarks. intros r Hr. apply in_flat_map in Hr. destruct Hr as (x & Hx & Hr).
         apply in_flat_map in Hx. destruct Hx as (k & Hk & Hx).
-        destruct k as [|pi fl st| |]; unfold clip_kid in Hx; try (destruct Hx; fail).
+        destruct k as [|pi pvz fl st| |]; unfold clip_kid in Hx; try (destruct Hx; fail).
         destruct Hx as [<-|[]]. apply (allp_path _ _ _ _ r Hr).
       + rewrite write_group_noclip. rewrite lmarks_single, marks_of_eq, !flat_map_app.
         repeat apply allp_app; try apply allp_id; try apply allp_opt.
@@ -791,7 +791,7 @@ Section Xlink.
     apply tree_mutind; auto.
     - intros g Hg clip H. change (lx (write_group o g clip) = true) in H. destruct (Hg clip H) as (m & Hm & Ht).
       exists m. split; auto. rewrite all_node_group. right. apply in_or_app. left. exact Hm.
-    - intros i fl st _ _ clip H. change (lx [write_path o i fl st None] = true) in H.
+    - intros i vz fl st _ _ clip H. change (lx [write_path o i fl st None] = true) in H.
       rewrite lx_single, write_path_nox in H. discriminate.
     - intros i sub _ clip _. exists (NImage i sub). split; [apply self_in_all_node|reflexivity].
     - intros i flat ch Hfl clip H.
@@ -805,7 +805,7 @@ Section Xlink.
       + destruct (Hfl clip H) as (m & Hm & Ht). exists m. split; auto. rewrite all_node_text. right. exact Hm.
     - intros i sy c m fs ks _ _ _ Hks clip H. rewrite all_group_eq. destruct clip.
       + rewrite write_group_clip in H. apply lx_flat_map in H. destruct H as (k & Hk & H).
-        destruct k as [|pi fl st| |]; unfold clip_kid in H; try discriminate.
+        destruct k as [|pi pvz fl st| |]; unfold clip_kid in H; try discriminate.
         rewrite lx_single, write_path_nox in H. discriminate.
       + rewrite write_group_noclip, lx_single, uses_xlink_eq in H. rewrite !existsb_app, id_attr_nox, !opt_url_nox in H.
         assert (H' : lx (flat_map (fun k => write_node o k false) ks) = true)
@@ -858,7 +858,7 @@ Section Xlink.
       destruct Hm as [<-|Hm]; [rewrite Ht; reflexivity|]. apply in_app_or in Hm. destruct Hm as [Hm|Hm].
       + rewrite (Hg m Hm Ht). rewrite !orb_true_r. reflexivity.
       + rewrite (Hs m Hm Ht). rewrite !orb_true_r. reflexivity.
-    - intros i fl st Hfl Hst m Hm Ht. rewrite all_node_path in Hm. destruct Hm as [<-|Hm]; [discriminate Ht|].
+    - intros i vz fl st Hfl Hst m Hm Ht. rewrite all_node_path in Hm. destruct Hm as [<-|Hm]; [discriminate Ht|].
       change (hx_paint fl || hx_paint st = true). apply in_app_or in Hm. destruct Hm as [Hm|Hm].
       + rewrite (Hfl m Hm Ht). reflexivity.
       + rewrite (Hst m Hm Ht). apply orb_true_r.
@@ -923,7 +923,7 @@ Section Xlink.
       apply (ht_incl (all_gdefs g)); [apply incl_tl, incl_appr, incl_refl|]. apply Hs.
       destruct g as [i sy c m fs ks]. rewrite hx_gsub_eq. simpl g_mask in H. destruct m as [d|]; [|discriminate].
       rewrite H. rewrite orb_true_r. reflexivity.
-    - intros i fl st Hfl Hst H. change (hx_paint fl || hx_paint st = true) in H. rewrite all_node_path.
+    - intros i vz fl st Hfl Hst H. change (hx_paint fl || hx_paint st = true) in H. rewrite all_node_path.
       apply orb_true_iff in H. destruct H as [H|H].
       + apply (ht_incl (all_paint fl)); [apply incl_tl, incl_appl, incl_refl|auto].
       + apply (ht_incl (all_paint st)); [apply incl_tl, incl_appr, incl_refl|auto].
@@ -1048,8 +1048,8 @@ Section Xlink.
       destruct d as [| | | |q j r0]; try discriminate. destruct (xl_elements r0 false H) as (m & Hm & Ht).
       apply (has_xlink_complete root m); auto. apply (Hsub r0); auto. intros k Hk.
       specialize (S6 _ Hd). unfold reach_defs in S6. apply in_flat_map in S6. destruct S6 as (n & Hn & Hin).
-      destruct n as [|i fl st| |]; cbn [node_paints] in Hin; try (destruct Hin; fail).
-      apply (U_pattern_kid root i fl st q j r0 k Hn); auto.
+      destruct n as [|i vz fl st| |]; cbn [node_paints] in Hin; try (destruct Hin; fail).
+      apply (U_pattern_kid root i vz fl st q j r0 k Hn); auto.
       apply filter_In in Hin. destruct Hin as [[<-|[<-|[]]] _]; auto.
     - unfold has_text_nodes in H. rewrite xl_text_paths in H. discriminate.
     - apply xl_filters in H. destruct H as (f & Hf & H).
